@@ -1785,7 +1785,17 @@ pub fn check(check: &mut Check) {
       }
     }
     let t_case = Instant::now();
-    let r = execute(s);
+    let mut r = execute(s);
+    // a scenario that failed before is re-executed by vcore (shrinking, final confirmation): the forced
+    // interleaving still depends on B getting scheduled inside A's pause, so a passing re-run is repeated
+    if r.is_ok() && failing.lock().unwrap().contains(&h) {
+      for _ in 0..5 {
+        r = execute(s);
+        if r.is_err() {
+          break;
+        }
+      }
+    }
     // development aid (never set by vf): report slow cases
     if std::env::var("VERIF_PAIR_TIMING").is_ok() && t_case.elapsed() > Duration::from_millis(300) {
       eprintln!("slow case {:?}: {} + {} pa={:?} pb={:?} cfg={:?} classes={:?}", t_case.elapsed(), s.a.name(), s.b.name(), s.pa, s.pb, s.cfg, r.as_ref().map(|r| r.classes.clone()).unwrap_or_default());
